@@ -216,6 +216,11 @@ func runC17x(c c17Case, info *c17Info) *vstat.Failure {
 		if datagram || (shared && nw > 1) {
 			w.Tail = false
 			writers[i].Tail = false
+			if writers[i].Lines == 0 {
+				// a pipe writer that writes nothing is indistinguishable from "no
+				// writer yet" for the reader: every writer writes something
+				writers[i].Lines = 1
+			}
 			// one write must stay atomic (PIPE_BUF): keep the lines short
 			for k := range writers[i].Pads {
 				if writers[i].Pads[k] > 300 {
@@ -324,50 +329,74 @@ func runC17x(c c17Case, info *c17Info) *vstat.Failure {
 	// oracle
 	got := col.texts()
 	next := make([]int, nw)
-	ended := make([]bool, nw) // cancelled runs: a line torn by the cancellation was that writer's last
-	for _, l := range got {
-		if cancelled {
-			// the read that cancellation interrupts may have taken part of a line,
-			// which is then flushed as it is: tolerated once per writer, at its end
-			torn := -1
-			for id := 0; id < nw; id++ {
-				if !ended[id] && next[id] < len(expLines[id]) && l != expLines[id][next[id]] && strings.HasPrefix(expLines[id][next[id]], l) {
-					torn = id
-					break
+	lastAt := make([]int, nw) // index of the last complete line delivered per writer
+	for i := range lastAt {
+		lastAt[i] = -1
+	}
+	type frag struct {
+		at   int
+		text string
+	}
+	var frags []frag
+	for gi, l := range got {
+		m := c17Tag.FindStringSubmatch(l)
+		if m != nil {
+			id, _ := strconv.Atoi(m[1])
+			seq, _ := strconv.Atoi(m[2])
+			if id < nw && seq < len(expLines[id]) && l == expLines[id][seq] {
+				if seq != next[id] {
+					sig := "line-lost"
+					if seq < next[id] {
+						sig = "line-duplicated"
+					}
+					return vstat.Failf(sig, "%s stream: writer %d's line %d arrived where its line %d was due (%q)", c.Kind, id, seq, next[id], l)
 				}
-			}
-			if torn >= 0 {
-				ended[torn] = true
+				next[id]++
+				lastAt[id] = gi
 				continue
 			}
 		}
-		m := c17Tag.FindStringSubmatch(l)
-		if m == nil {
+		if !cancelled {
 			sig := "line-merged-or-torn"
 			if strings.Count(l, "w") >= 2 && strings.Count(l, ":") >= 4 {
 				sig = "lines-spliced"
 			}
 			return vstat.Failf(sig, "%s stream delivered %q, which no writer wrote as one line", c.Kind, l)
 		}
-		id, _ := strconv.Atoi(m[1])
-		seq, _ := strconv.Atoi(m[2])
-		if id >= nw {
-			return vstat.Failf("unknown-writer", "line %q", l)
-		}
-		if ended[id] {
-			return vstat.Failf("line-after-torn-line", "writer %d: %q arrived after a fragment of an earlier line had been flushed", id, l)
-		}
-		if seq != next[id] {
-			sig := "line-lost"
-			if seq < next[id] {
-				sig = "line-duplicated"
+		frags = append(frags, frag{gi, l})
+	}
+	if len(frags) > 0 {
+		// cancelled: the read that cancellation interrupts may have taken part of a
+		// line, which is flushed as it is. Each such fragment must be a proper
+		// prefix of the line that was due next from SOME writer, come after that
+		// writer's complete lines, and no writer may account for two of them.
+		var assign func(k int, used []bool) bool
+		assign = func(k int, used []bool) bool {
+			if k == len(frags) {
+				return true
 			}
-			return vstat.Failf(sig, "%s stream: writer %d's line %d arrived where its line %d was due (%q)", c.Kind, id, seq, next[id], l)
+			for id := 0; id < nw; id++ {
+				if used[id] || next[id] >= len(expLines[id]) || lastAt[id] > frags[k].at {
+					continue
+				}
+				e := expLines[id][next[id]]
+				if e != frags[k].text && strings.HasPrefix(e, frags[k].text) {
+					used[id] = true
+					if assign(k+1, used) {
+						return true
+					}
+					used[id] = false
+				}
+			}
+			return false
 		}
-		if l != expLines[id][seq] {
-			return vstat.Failf("line-content", "writer %d line %d: delivered %q, written %q", id, seq, l, expLines[id][seq])
+		if len(frags) > nw || !assign(0, make([]bool, nw)) {
+			var ts []string
+			for _, f := range frags {
+				ts = append(ts, f.text)
+			}
+			return vstat.Failf("line-merged-or-torn", "%s stream (cancelled): delivered %q, which cannot be explained as one interrupted line per writer", c.Kind, ts)
 		}
-		next[id]++
 	}
 	if !cancelled {
 		for id := range writers {
